@@ -97,6 +97,85 @@ def impl_self_history(spec: dict) -> dict:
     return {"v": "ok", "outcomes": outcomes, "src": cls_src}
 
 
+def impl_same_class(_: dict) -> dict:
+    """Objects of ONE class that differ in whether they satisfy the provider protocol (the method is an instance attribute, or is
+    attached / removed between calls): each call is judged on the object it is given, in every order, across functions."""
+    import types
+    from typing import Annotated
+
+    import numpy as np
+
+    import dltype
+
+    T = Annotated[np.ndarray, dltype.FloatTensor["a n"]]
+    good, bad = np.zeros((2, 5), dtype=np.float32), np.zeros((2, 6), dtype=np.float32)
+    problems, n = [], 0
+
+    def outcome(fn, *args):
+        try:
+            fn(*args)
+            return "accept"
+        except dltype.DLTypeError as e:
+            return type(e).__name__
+        except BaseException as e:  # noqa: BLE001
+            return "OTHER " + type(e).__name__
+
+    for order in ("without_first", "with_first"):
+        class Cfg:
+            pass
+
+        without, with_ = Cfg(), Cfg()
+        with_.get_dltype_scope = lambda: {"n": 5}
+
+        def f(x):
+            return None
+
+        def g(x):
+            return None
+
+        f.__annotations__ = {"x": T}     # this module has postponed annotations: give the real objects
+        g.__annotations__ = {"x": T}
+        fw, fo = dltype.dltyped(with_)(f), dltype.dltyped(without)(g)
+        seq = [(fo, "DLTypeScopeProviderError", good), (fw, "accept", good), (fw, "DLTypeShapeError", bad), (fo, "DLTypeScopeProviderError", good)]
+        if order == "with_first":
+            seq = [seq[1], seq[0], seq[2], seq[3]]
+        for fn, want, arr in seq:
+            n += 1
+            got = outcome(fn, arr)
+            if got != want:
+                problems.append({"what": "two objects of one class, only one of which is a scope provider: a call was judged by the other object",
+                                 "order": order, "expected": want, "got": got})
+
+        def m(self, x):
+            return None
+
+        m.__annotations__ = {"x": T}
+        M = type("M", (), {"m": dltype.dltyped("self")(m)})
+
+        a, b = M(), M()
+        b.get_dltype_scope = lambda: {"n": 5}
+        seq = [(a, "DLTypeScopeProviderError", good), (b, "accept", good), (b, "DLTypeShapeError", bad), (a, "DLTypeScopeProviderError", good)]
+        if order == "with_first":
+            seq = [seq[1], seq[0], seq[2], seq[3]]
+        for inst, want, arr in seq:
+            n += 1
+            got = outcome(inst.m, arr)
+            if got != want:
+                problems.append({"what": '"self" provider: instances of one class, only one of which has get_dltype_scope: judged by the other instance',
+                                 "order": order, "expected": want, "got": got})
+        # the method is attached later, then removed again
+        c = M()
+        n += 3
+        r1 = outcome(c.m, good)
+        c.get_dltype_scope = types.MethodType(lambda self: {"n": 5}, c)
+        r2 = outcome(c.m, good)
+        del c.get_dltype_scope
+        r3 = outcome(c.m, good)
+        if (r1, r2, r3) != ("DLTypeScopeProviderError", "accept", "DLTypeScopeProviderError"):
+            problems.append({"what": "an object that gains and loses get_dltype_scope between calls is not judged as it is at each call", "got": [r1, r2, r3]})
+    return {"n": n, "problems": problems}
+
+
 def gen_self_history(rnd) -> dict:
     base = GC.gen_case(rnd, tuples=0.1, plain=0.1, optionals=0.1, with_provider=1.0, with_ret=0.4)
     base["provider"]["kind"] = "self"
@@ -190,6 +269,7 @@ def run(tier: str, seed: int, rep: Report, model: Model) -> dict:
         hres = worker.call_many("impl_family", hists, timeout=60.0)
         sres = worker.call_many("impl_fn", [c for _, c in singles])
         selfres = worker.call_many("impl_self_history", selfs, timeout=60.0)
+        same = worker.call("impl_same_class", {}, timeout=60.0)
     finally:
         worker.close()
     for fam, res in zip(hists, hres):
@@ -247,6 +327,11 @@ def run(tier: str, seed: int, rep: Report, model: Model) -> dict:
                 break
         if rep.many_violations():
             break
+    # (d) protocol membership is a fact about the object at the time of the call, not about its class
+    rep.case("same_class_providers", same)
+    rep.count("same_class_observations", same.get("n", 0))
+    for pr in same.get("problems", [{"what": "the same-class provider run did not finish", "detail": same}] if "problems" not in same else []):
+        rep.violation(pr)
     answers = model.ask_many([I.fn_case_sx(c) for _, c in singles])
     for (label, case), raw, ans in zip(singles, sres, answers):
         if "__skipped__" in raw:
